@@ -115,6 +115,9 @@ func C05() api.Check {
 		id: "C05", quick: 1500, thorough: 100000,
 		variants: cached,
 		gen: func(seed uint64, idx int, tier string) item {
+			if idx%4 == 3 {
+				return item{c: gen.StoreThenWalk(seed), sub: "store-then-walk"}
+			}
 			return item{c: gen.Memory(seed), sub: "memory"}
 		},
 		judge: judgeRef,
